@@ -67,6 +67,7 @@ func walkEval(n ast.Node, cond bool, v Visit) {
 		v(x, cond)
 	case *ast.KeyValueExpr:
 		walkEval(x.Value, cond, v)
+		v(x, cond)
 	case *ast.CompositeLit:
 		for _, e := range x.Elts {
 			walkEval(e, cond, v)
